@@ -118,6 +118,11 @@ def build(tier, seed):
                 continue      # num_grad total least squares is slow: two models in the quick tier, all in thorough
             cases.append({'kind': 'tls', 'model': model, 'num_grad': ng})
     cases.append({'kind': 'tls-limit'})
+    # data whose central values scatter much less than their errors (both of ODRPACK's convergence criteria are met at once)
+    cases.append({'kind': 'tls-tight'})
+    # the same model written in other Python forms (parameter unpacking, negative indices, helper calls, integer abscissae)
+    for layout in ('indep', 'shared'):
+        cases.append({'kind': 'model-forms', 'layout': layout})
     # call history: fits after fits (same function object, equal correlation matrices, loose tolerances before)
     cases.append({'kind': 'fit-sequence'})
     # call history: three models that share one code object (closures from a factory), fitted in every order
@@ -149,6 +154,10 @@ def run_case(case):
             run_ls_factory(pe, acc, case)
         elif case['kind'] == 'fit-sequence':
             run_fit_sequence(pe, acc, case)
+        elif case['kind'] == 'model-forms':
+            run_model_forms(pe, acc, case)
+        elif case['kind'] == 'tls-tight':
+            run_tls_tight(pe, acc, case)
         else:
             run_tls_limit(pe, acc, case)
     return acc
@@ -291,6 +300,70 @@ def _same_fit(res, exp, npar, tolv, told):
             if not np.max(np.abs(g.deltas[nm] - e.deltas[nm])) <= told * sc:
                 return 'fluctuations of parameter %d on %s deviate by %g (scale %g)' % (j, nm, np.max(np.abs(g.deltas[nm] - e.deltas[nm])), sc)
     return None
+
+
+def run_model_forms(pe, acc, case):
+    """One model, several ways of writing it: every form is fitted (least_squares and total_least_squares) and has to give the
+    result of the plain indexed form, which run_ls / run_tls compare with the implicit-function reference."""
+    a = anp()
+
+    def unpack(p, x):
+        A, m = p
+        return A * a.exp(-m * x)
+
+    def unpack_star(p, x):
+        A, *rest = p
+        return A * a.exp(-rest[0] * x)
+
+    def helper(p, x):
+        return _amp(p) * a.exp(-_mass(p) * x)
+
+    def _amp(p):
+        return p[0]
+
+    def _mass(p):
+        return p[len(p) - 1] if len(p) == 2 else p[1] + p[5]      # a wrong number of parameters fails with an IndexError
+
+    forms = {'indexed': lambda p, x: p[0] * a.exp(-p[1] * x), 'unpacked': unpack, 'star-unpacked': unpack_star, 'negative-index': lambda p, x: p[-2] * a.exp(-p[-1] * x) + 0 * p[1],
+             'helpers': helper, 'power-of-e': lambda p, x: p[0] * a.e ** (-p[1] * x)}
+    n = 7
+    xf, ys = make_data(pe, 'exp', n, case['layout'], 'forms')
+    xint = [int(v) for v in range(1, n + 1)]
+    rr = alpha.rng('c08forms', case['layout'])
+    yp = [pe.Obs([1.7 * xi ** -0.8 * (1 + 0.02 * rr.normal(size=40))], ['S|r1' if case['layout'] == 'shared' else 'P%d|r1' % xi]) for xi in xint]
+    xo = [pe.Obs([xv + 0.01 * rr.normal(size=30)], ['X%d|r1' % i]) for i, xv in enumerate(xf)]
+    [o.gamma_method() for o in yp + xo]
+    ref = pe.least_squares(xf, ys, forms['indexed'], silent=True)
+    reft = pe.total_least_squares(xo, ys, forms['indexed'], silent=True)
+    for nm, f in forms.items():
+        for kind, fit, exp in (('ls', lambda f=f: pe.least_squares(xf, ys, f, silent=True), ref), ('tls', lambda f=f: pe.total_least_squares(xo, ys, f, silent=True), reft)):
+            sub = dict(case, form=nm, fit=kind)
+            try:
+                res = fit()
+            except Exception as e:
+                acc.fail('model-form:refused', sub, 'the two-parameter exponential written as "%s" is refused by %s: %s: %s' % (nm, kind, type(e).__name__, e))
+                continue
+            bad = _same_fit(res, exp, 2, 1e-6, 1e-5)
+            if bad:
+                acc.fail('model-form:differs', sub, '%s fit of the form "%s" differs from the indexed form: %s' % (kind, nm, bad))
+            else:
+                acc.ok(('form', case['layout'], nm, kind), nm != 'indexed', 'model-form')
+    # power law on integer abscissae given as a list of Python ints / an integer array, against the same fit on floats
+    pw = lambda p, x: p[0] * x ** (-p[1])      # noqa: E731
+    refp = pe.least_squares(np.array(xint, dtype=float), yp, pw, silent=True)
+    for nm, xx in (('int-list', xint), ('int-array', np.array(xint)), ('int64-array', np.array(xint, dtype=np.int64))):
+        sub = dict(case, form='power-law', x=nm)
+        try:
+            res = pe.least_squares(xx, yp, pw, silent=True)
+        except Exception as e:
+            acc.fail('model-form:refused', sub, 'power law a*x^(-b) on integer abscissae (%s) refused: %s: %s' % (nm, type(e).__name__, e))
+            continue
+        bad = _same_fit(res, refp, 2, 1e-6, 1e-5)
+        if bad:
+            acc.fail('model-form:differs', sub, 'power law on %s differs from the fit on floats: %s' % (nm, bad))
+        else:
+            acc.ok(('form-int', case['layout'], nm), True, 'model-form')
+    acc.sample({'kind': 'model-forms', 'forms': sorted(forms), 'integer_abscissae': ['int-list', 'int-array', 'int64-array']})
 
 
 def run_fit_sequence(pe, acc, case):
@@ -551,6 +624,54 @@ def run_tls(pe, acc, case):
             acc.count('refits', 4 * len(sources))
             acc.count('sensitivity-coefficients-compared', len(sources) * npar)
     acc.sample(dict(case, points=n))
+
+
+def run_tls_tight(pe, acc, case):
+    """Central values on the curve to 1e-3 / 1e-6 of the errors (or exactly): every such fit is served, at a stationary point of the
+    documented chi-square and at the true parameters."""
+    for model in ('exp', 'exp+c', 'cosh', 'rational'):
+        f, ptrue, dim, guess = models()[model]
+        npar = len(ptrue)
+        n = 8
+        xv = xs_for(1, n)
+        for tight, dxs in itertools.product((1e-3, 1e-6, 0.0), (0.02, 0.1)):
+            r = alpha.rng('c08tight', model, tight, dxs)
+            ys, xo = [], []
+            for i in range(n):
+                mean = float(f(ptrue, xv[i]))
+                sig = 0.03 * abs(mean) + 0.004
+                z = r.normal(size=40)
+                z = (z - z.mean()) / z.std(ddof=1)
+                ys.append(pe.Obs([mean * 1.0 + sig * tight * r.normal() + sig * math.sqrt(40) * z], ['E%d|r1' % i]))
+                w = r.normal(size=30)
+                w = (w - w.mean()) / w.std(ddof=1)
+                xo.append(pe.Obs([xv[i] + dxs * tight * r.normal() + dxs * math.sqrt(30) * w], ['X%d|r1' % i]))
+            [o.gamma_method(S=0) for o in ys + xo]
+            sub = dict(case, model=model, tight=tight, dx=dxs)
+            try:
+                res = pe.total_least_squares(xo, ys, f, silent=True, initial_guess=guess)
+            except Exception as e:
+                acc.fail('tls-tight:raised', sub, 'total_least_squares on %s data lying on the curve to %g of the errors (x errors %g) raised %s: %s' % (model, tight, dxs, type(e).__name__, e))
+                continue
+            pfit = np.array([o.value for o in res.fit_parameters])
+            xval, dx = np.array([o.value for o in xo]), np.array([o.dvalue for o in xo])
+            yv, dy = np.array([y.value for y in ys]), np.array([y.dvalue for y in ys])
+
+            def chi(q):
+                pp, xi = q[:npar], q[npar:]
+                return float(np.sum(((yv - np.array([float(f(pp, xi[i])) for i in range(n)])) / dy) ** 2) + np.sum(((xval - xi) / dx) ** 2))
+            q0 = np.concatenate([pfit, np.asarray(res.xplus, dtype=float).ravel()])
+            g = num_grad(chi, q0)
+            bad = None
+            if not np.max(np.abs(g)) <= 1e-3 * max(1.0, chi(q0)):
+                bad = 'not a stationary point of the documented chi-square: max gradient %g' % np.max(np.abs(g))
+            elif not np.all(np.abs(pfit - np.array(ptrue)) <= 10 * max(tight, 1e-9) * np.abs(ptrue) + 1e-7):
+                bad = 'parameters %s, the data lie on the curve with parameters %s' % (pfit, ptrue)
+            if bad:
+                acc.fail('tls-tight', sub, '%s, scatter %g of the errors, x errors %g: %s' % (model, tight, dxs, bad))
+            else:
+                acc.ok(('tight', model, tight, dxs), True, 'tls-tight')
+    acc.sample({'kind': 'tls-tight', 'models': ['exp', 'exp+c', 'cosh', 'rational'], 'scatter_over_error': [1e-3, 1e-6, 0.0], 'x_errors': [0.02, 0.1]})
 
 
 def run_tls_limit(pe, acc, case):
